@@ -73,6 +73,9 @@ pub struct WsSc {
     /// status code of the server's close frame (0 = close frame without a status)
     #[serde(default)]
     pub close_code: u16,
+    /// run with a tracing subscriber that enables every span and event
+    #[serde(default)]
+    pub trace: bool,
 }
 
 const GUARD: Duration = Duration::from_secs(3);
@@ -136,6 +139,10 @@ fn to_res(r: insim::Result<insim::Packet>) -> AppRes {
 }
 
 fn run_ws(sc: &WsSc) -> WsRun {
+    crate::tracer::with_tracing(sc.trace, || run_ws_inner(sc))
+}
+
+fn run_ws_inner(sc: &WsSc) -> WsRun {
     let rt = tokio::runtime::Builder::new_current_thread().enable_all().build().unwrap();
     let mut events = Vec::new();
     crate::model::enter_guard();
@@ -579,7 +586,7 @@ impl Prop for C20 {
         }
         let close_code = if rng.chance(1, 2) { 0 } else { *rng.pick(&[1000u16, 1001, 1012, 1008, 1011, 4000]) };
         let _ = &storm_at;
-        WsSc { mode, steps, end, late_read, close_code }
+        WsSc { mode, steps, end, late_read, close_code, trace: rng.chance(1, 8) }
     }
 
     fn execute(&self, sc: &WsSc) -> RunReport {
@@ -951,6 +958,7 @@ impl Prop for C20 {
                 end: WsEnd::Close,
                 late_read: false,
                 close_code: 0,
+                trace: false,
             });
             // a connection abandoned with a partial frame received
             v.push(WsSc {
@@ -959,9 +967,22 @@ impl Prop for C20 {
                 end: WsEnd::None,
                 late_read: false,
                 close_code: 0,
+                trace: false,
             });
         }
         v
+    }
+
+    fn repro_variants(&self, sc: &WsSc) -> Vec<WsSc> {
+        // tracing keeps a process-wide callsite cache: a case found with `trace: false` while
+        // another worker had a subscriber reproduces on its own only with `trace: true`
+        if sc.trace {
+            vec![]
+        } else {
+            let mut v = sc.clone();
+            v.trace = true;
+            vec![v]
+        }
     }
 
     fn rule(&self) -> String {
